@@ -1,15 +1,27 @@
 import Py4hwV.Proofs.C01Cert3
 import Py4hwV.Proofs.C01HierElab
+import Py4hwV.Proofs.C01CertIR
 /-
-  C01 — design level, GENERALISED: children that are several leaves / several assigns (BitsLSBF, BitsMSBF, Nand2, Nor2, Xor2),
-  and ONE level of structural hierarchy (instances of structural sub-modules, each with its own Reg instances).
+  C01 — design level, GENERALISED.
+
+  Children of a structural block may be (`FlatM.GKind`) any inlinable primitive, or a block that is SEVERAL simulator leaves
+  and/or SEVERAL assigns: BitsLSBF / BitsMSBF (one leaf, one put and one assign per bit), And / Or / Nor of any arity (a Buf
+  or a ladder of And2 / Or2 through internal wires; one `a & b & …` assign), Nand2 / Nor2 / Xor2 (two / eight leaves, one assign),
+  Equal and EqualConstant (Xor2 + BitsLSBF + Nor, BitsLSBF + Minterm; one `(a == b)? 1:0` assign; inside the domain where text
+  and simulator agree — the classes of the known findings C01-equal-irregular / C01-equalconst-oversized fail `GKind.okb`),
+  Div / Mod (claimed where the divisor is not 0 at every settle: `NetD.good`, `FlatM.GoodRun`), Reg — or INSTANCES of structural
+  sub-blocks of the same shape, to ANY nesting depth (`FlatM.HierSrc`, `FlatM.ModN`).
 
   * `cert_run` / `cert_powerup`  the C01 statement for ANY flattened text that carries a checked certificate `CertSrc`
        (a table name ↦ net, one tag per assign, registers under arbitrary instance prefixes, clock aliases).
   * `hier_elab`                  `V.flatten (HierSrc.emit S) = (HierSrc.cert S).flat`: instances of sub-modules become prefixed
-       copies of their bodies plus the port-connection assigns; `V.mkSim` of the emitted module list is the certified text.
+       copies of their bodies plus the port-connection assigns, recursively (`FlatM.HierSrc.lowN_ok`: induction on the depth,
+       every level is `Low.up` of the level below); `V.mkSim` of the emitted module list is the certified simulator.
   * `hier_text_run` / `hier_text_powerup`   C01 on the emitted text of a hierarchical design: all widths, every input
-       history from power-up, shipped interpreter (`V.Sim.cycle`).
+       history from power-up on which no divisor is 0 at a settle, shipped interpreter (`V.Sim.cycle`);
+    `hier_text_run_divfree` / `hier_text_powerup_divfree`: no side condition for designs without Div / Mod.
+  * leaves ↔ netlist IR: `FlatM.kind_inst_prop` (single-output leaves), `FlatM.bitsL_inst_prop`, `bitsM_inst_prop`, `dm_inst_prop`
+       (Proofs/C01CertIR.lean): the puts of the `CLeaf`s are the puts of the IR leaves harness/dump_ir.py exports.
   The tie to the real generator is, as for `C01Flat.text_run`, the per-design decidable check `parsed text = S.emit`
   (lean/Drv/C01Hier.lean, streams `hier_text_*` of harness/c01.py).
 -/
@@ -80,5 +92,186 @@ theorem hier_text_powerup_divfree (S : HierSrc) (h : S.check = true) (hd : S.cer
       (S.cert.zeroOps.foldl S.cert.shipOp (mkSim S.emit S.top.mname S.clk)).settle.st.rd.val nm =
         ⟨S.wd k, (initC S.cert.netD.design S.cert.netD.st0 S.cert.netD.cons).val k, true⟩ :=
   hier_text_powerup S h (CertSrc.good_of_divFree hd _)
+
+end C01Hier
+
+/-! ## non-vacuity: two REAL emitted texts (tools/c01/hier_examples.py prints them from live py4hw designs) -/
+namespace C01Hier
+open V FlatM Net
+
+/-! ### three levels: Top → Mid → Blk (And2 + Reg), and Blk again directly under Top (another module of the same contents:
+    the emitter names structural modules by object identity); the clock goes down through two instance boundaries -/
+
+def exH : HierSrc :=
+  { depth := 2, clk := "clk",
+    widths := [3, 3, 3, 3, 3, 3],
+    top :=
+      { mname := "Top",
+        names := [(0, "a"), (1, "b"), (2, "o1"), (3, "o2")],
+        inputs := [("a", 0), ("b", 1)],
+        outputs := [("o1", 2), ("o2", 3)],
+        locals := [],
+        children :=
+         [.sub "i_m"
+           { mname := "Mid_7f9e547f4950",
+             names := [(0, "mx"), (1, "my"), (2, "mz")],
+             inputs := [("mx", 0), ("my", 1)],
+             outputs := [("mz", 2)],
+             locals := [],
+             children :=
+              [.sub "i_b"
+                { mname := "Blk_7f9e547f4a10",
+                  names := [(0, "x"), (1, "y"), (4, "w_t"), (2, "z")],
+                  inputs := [("x", 0), ("y", 1)],
+                  outputs := [("z", 2)],
+                  locals := [4],
+                  children :=
+                   [.kind (.prim (.and2 0 1 4)),
+                   .reg { iname := "i_r", mname := "Reg3", leaf := { hasR := false, hasE := false, rv := 0, d := 4, e := 0, r := 0, q := 2 } }] }] },
+         .sub "i_k"
+           { mname := "Blk_7f9e547f4980",
+             names := [(0, "x"), (2, "y"), (5, "w_t"), (3, "z")],
+             inputs := [("x", 0), ("y", 2)],
+             outputs := [("z", 3)],
+             locals := [5],
+             children :=
+              [.g (.kind (.prim (.and2 0 2 5))),
+              .g (.reg { iname := "i_r", mname := "Reg3", leaf := { hasR := false, hasE := false, rv := 0, d := 5, e := 0, r := 0, q := 3 } })] }] },
+    order := [0, 1],
+    vorder := [1, 9, 10, 11, 14, 18, 19, 4, 5, 6, 7, 15, 17, 0, 2, 8, 21, 3, 12, 20, 13, 16] }
+
+/-- parsed from the text the real generator wrote -/
+def exHText : V.Design :=
+  [{ name := "Top", params := [],
+     ports :=
+      [{ dir := .inp, isReg := false, width := 1, name := "clk" },
+       { dir := .inp, isReg := false, width := 3, name := "a" },
+       { dir := .inp, isReg := false, width := 3, name := "b" },
+       { dir := .out, isReg := false, width := 3, name := "o1" },
+       { dir := .out, isReg := false, width := 3, name := "o2" }],
+     items :=
+      [.inst "Mid_7f9e547f4950" "i_m" [] [("clk", .id "clk"), ("mx", .id "a"), ("my", .id "b"), ("mz", .id "o1")],
+       .inst "Blk_7f9e547f4980" "i_k" [] [("clk", .id "clk"), ("x", .id "a"), ("y", .id "o1"), ("z", .id "o2")]] },
+   { name := "Mid_7f9e547f4950", params := [],
+     ports :=
+      [{ dir := .inp, isReg := false, width := 1, name := "clk" },
+       { dir := .inp, isReg := false, width := 3, name := "mx" },
+       { dir := .inp, isReg := false, width := 3, name := "my" },
+       { dir := .out, isReg := false, width := 3, name := "mz" }],
+     items :=
+      [.inst "Blk_7f9e547f4a10" "i_b" [] [("clk", .id "clk"), ("x", .id "mx"), ("y", .id "my"), ("z", .id "mz")]] },
+   { name := "Blk_7f9e547f4a10", params := [],
+     ports :=
+      [{ dir := .inp, isReg := false, width := 1, name := "clk" },
+       { dir := .inp, isReg := false, width := 3, name := "x" },
+       { dir := .inp, isReg := false, width := 3, name := "y" },
+       { dir := .out, isReg := false, width := 3, name := "z" }],
+     items :=
+      [.wire "w_t" 3,
+       .assign (.lid "w_t") (.bin "and" (.id "x") (.id "y")),
+       .inst "Reg3" "i_r" [] [("clk", .id "clk"), ("d", .id "w_t"), ("q", .id "z")]] },
+   { name := "Reg3", params := [],
+     ports :=
+      [{ dir := .inp, isReg := false, width := 1, name := "clk" },
+       { dir := .inp, isReg := false, width := 3, name := "d" },
+       { dir := .out, isReg := false, width := 3, name := "q" }],
+     items :=
+      [.reg "rq" 3 (some (.num none true 0 true)),
+       .always (.pos "clk") (.nba (.lid "rq") (.id "d")),
+       .assign (.lid "q") (.id "rq")] },
+   { name := "Blk_7f9e547f4980", params := [],
+     ports :=
+      [{ dir := .inp, isReg := false, width := 1, name := "clk" },
+       { dir := .inp, isReg := false, width := 3, name := "x" },
+       { dir := .inp, isReg := false, width := 3, name := "y" },
+       { dir := .out, isReg := false, width := 3, name := "z" }],
+     items :=
+      [.wire "w_t" 3,
+       .assign (.lid "w_t") (.bin "and" (.id "x") (.id "y")),
+       .inst "Reg3" "i_r" [] [("clk", .id "clk"), ("d", .id "w_t"), ("q", .id "z")]] }]
+
+theorem exH_text : exH.emit = exHText := by decide
+theorem exH_check : exH.check = true := by decide
+theorem exH_divfree : exH.cert.divFree = true := by decide
+
+/-- the output `o2` of the real text (a Reg two levels down feeds an And2 in a sibling block) follows the py4hw simulator on
+    every input history from power-up -/
+theorem exH_o2 (ops : List Op) (hops : ∀ op, op ∈ ops → exH.cert.OpOK op) (n : Nat) :
+    ((exH.cert.zeroOps ++ (ops ++ [Op.clk (n + 1)])).foldl exH.cert.shipOp (mkSim exHText "Top" "clk")).st.rd.val "o2" =
+      ⟨3, (runC exH.cert.netD.design exH.cert.netD.st0 exH.cert.netD.cons (ops ++ [Op.clk (n + 1)])).val 3, true⟩ := by
+  rw [← exH_text]
+  exact (hier_text_run_divfree exH exH_check exH_divfree ops hops n).2 "o2" 3 (by decide)
+
+/-! ### children with several leaves and assigns: Equal, EqualConstant, Nor (3 inputs), Div, Xor2, BitsLSBF -/
+
+def exG : HierSrc :=
+  { depth := 0, clk := "clk",
+    widths := [2, 2, 1, 1, 2, 2, 2, 1, 1, 2, 2, 2, 2, 2, 2, 2, 2, 1, 1, 1, 1, 1, 1, 2, 2, 2, 2, 2, 2, 2, 2, 2],
+    top :=
+      { mname := "Top",
+        names := [(0, "a"), (1, "b"), (2, "e"), (3, "c"), (4, "x"), (5, "n"), (6, "dv"), (7, "b0"), (8, "b1")],
+        inputs := [("a", 0), ("b", 1)],
+        outputs := [("e", 2), ("c", 3), ("n", 5), ("dv", 6), ("x", 4), ("b0", 7), ("b1", 8)],
+        locals := [],
+        children :=
+         [.kind (.equal 0 1 2 9 10 11 12 13 14 15 16 [17, 18] [] 19),
+         .kind (.eqc 0 2 3 [20, 21] [22, 0] []),
+         .kind (.nary .nor [0, 1, 4] 5 [23] 24),
+         .kind (.dm false 0 1 6),
+         .kind (.xor2 0 1 4 25 26 27 28 29 30 31),
+         .kind (.bitsL 0 [7, 8])] },
+    order := [0, 1, 2, 3, 4, 5, 6, 7, 8, 9, 10, 11, 12, 13, 14, 18, 19, 17, 20, 21, 22, 23, 24, 25, 15, 16, 26],
+    vorder := [0, 1, 3, 4, 5, 6, 2] }
+
+/-- parsed from the text the real generator wrote (`(a == b)? 1:0`, `(a == 2)? 1 : 0`, `~( a | b | x )`, `a / b`, `a ^ b`, `a[0]`, `a[1]`) -/
+def exGText : V.Design :=
+  [{ name := "Top", params := [],
+     ports :=
+      [{ dir := .inp, isReg := false, width := 2, name := "a" },
+       { dir := .inp, isReg := false, width := 2, name := "b" },
+       { dir := .out, isReg := false, width := 1, name := "e" },
+       { dir := .out, isReg := false, width := 1, name := "c" },
+       { dir := .out, isReg := false, width := 2, name := "n" },
+       { dir := .out, isReg := false, width := 2, name := "dv" },
+       { dir := .out, isReg := false, width := 2, name := "x" },
+       { dir := .out, isReg := false, width := 1, name := "b0" },
+       { dir := .out, isReg := false, width := 1, name := "b1" }],
+     items :=
+      [.assign (.lid "e") (.tern (.bin "eq" (.id "a") (.id "b")) (.num none true 1 true) (.num none true 0 true)),
+       .assign (.lid "c") (.tern (.bin "eq" (.id "a") (.num none true 2 true)) (.num none true 1 true) (.num none true 0 true)),
+       .assign (.lid "n") (.un "not" (.bin "or" (.bin "or" (.id "a") (.id "b")) (.id "x"))),
+       .assign (.lid "dv") (.bin "div" (.id "a") (.id "b")),
+       .assign (.lid "x") (.bin "xor" (.id "a") (.id "b")),
+       .assign (.lid "b0") (.idx "a" (.num none true 0 true)),
+       .assign (.lid "b1") (.idx "a" (.num none true 1 true))] }]
+
+
+theorem exG_text : exG.emit = exGText := by decide
+theorem exG_check : exG.check = true := by decide
+
+/-- every output of the real text follows the simulator on every history on which the divisor `b` is not 0 at any settle -/
+theorem exG_outputs (ops : List Op) (hops : ∀ op, op ∈ ops → exG.cert.OpOK op) (n : Nat)
+    (hg : GoodRun exG.cert.netD (initC exG.cert.netD.design exG.cert.netD.st0 exG.cert.netD.cons) (ops ++ [Op.clk (n + 1)])) :
+    ∀ nm k, (nm, k) ∈ [("e", 2), ("c", 3), ("n", 5), ("dv", 6), ("x", 4), ("b0", 7), ("b1", 8)] →
+    ((exG.cert.zeroOps ++ (ops ++ [Op.clk (n + 1)])).foldl exG.cert.shipOp (mkSim exGText "Top" "clk")).st.rd.val nm =
+      ⟨exG.wd k, (runC exG.cert.netD.design exG.cert.netD.st0 exG.cert.netD.cons (ops ++ [Op.clk (n + 1)])).val k, true⟩ := by
+  intro nm k hmem
+  rw [← exG_text]
+  apply (hier_text_run exG exG_check ops hops n hg).2 nm k
+  simp only [List.mem_cons, Prod.mk.injEq, List.not_mem_nil, or_false] at hmem
+  rcases hmem with ⟨e1, e2⟩ | ⟨e1, e2⟩ | ⟨e1, e2⟩ | ⟨e1, e2⟩ | ⟨e1, e2⟩ | ⟨e1, e2⟩ | ⟨e1, e2⟩ <;> subst e1 e2 <;> decide
+
+theorem exG_kinds : exG.cert.kinds = [.equal 0 1 2 9 10 11 12 13 14 15 16 [17, 18] [] 19, .eqc 0 2 3 [20, 21] [22, 0] [],
+    .nary .nor [0, 1, 4] 5 [23] 24, .dm false 0 1 6, .xor2 0 1 4 25 26 27 28 29 30 31, .bitsL 0 [7, 8]] := rfl
+
+/-- the side condition of `exG` is exactly: the divisor wire `b` (net 1) is not 0 -/
+theorem exG_good (V : Nat → Nat) : exG.cert.netD.good V ↔ V 1 ≠ 0 := by
+  show (∀ k, k ∈ exG.cert.kinds → k.good V) ↔ _
+  rw [exG_kinds]
+  constructor
+  · intro h; exact h (.dm false 0 1 6) (by simp)
+  · intro h k hk
+    simp only [List.mem_cons, List.not_mem_nil, or_false] at hk
+    rcases hk with e | e | e | e | e | e <;> subst e <;> first | trivial | exact h
 
 end C01Hier
